@@ -270,10 +270,27 @@ func (c18) Run(e *Env) {
 		e.Probe("sink_blocked_past_grace")
 	}
 	// Emit after Stop is a silent no-op: its row never reaches a sink
+	// (judged by the recorded invocation, not by the row's name: only Emit calls invoked after the
+	// first Stop had returned count)
+	afterStop := map[string]bool{}
+	var firstStop *OpRec // the Stop call that returned first
+	for _, rec := range e.Ops {
+		if rec.Op.K == "stop" && rec.Ret >= 0 && (firstStop == nil || rec.Ret < firstStop.Ret) {
+			firstStop = rec
+		}
+	}
+	for _, rec := range e.Ops {
+		if (rec.Op.K == "emit" || rec.Op.K == "emitsync") && in.StopRet > 0 && firstStop != nil &&
+			(rec.Inv >= in.StopRet || (rec.Client == firstStop.Client && rec.Idx > firstStop.Idx)) {
+			afterStop[rec.Op.Tag] = true
+		}
+	}
 	for _, d := range in.Deliveries {
 		for _, r := range d.Rows {
-			if strings.HasPrefix(rowID(r), "after-stop") || strings.Contains(canon(r), "after-stop") {
-				e.Violate("C18/emit-after-stop-processed", site, "a row emitted after Stop returned was processed: %s", canon(r))
+			for tag := range afterStop {
+				if rowID(r) == tag || strings.Contains(canon(r), `"`+tag+`"`) {
+					e.Violate("C18/emit-after-stop-processed", site, "row %s, emitted (step %d) after Stop had returned (step %d), was processed: %s", tag, opInv(e, tag), in.StopRet, canon(r))
+				}
 			}
 		}
 	}
@@ -338,4 +355,13 @@ func (e *Env) advBetween(from, to int) time.Duration {
 		}
 	}
 	return d
+}
+
+func opInv(e *Env, tag string) int {
+	for _, rec := range e.Ops {
+		if rec.Op.Tag == tag && (rec.Op.K == "emit" || rec.Op.K == "emitsync") {
+			return rec.Inv
+		}
+	}
+	return -1
 }
